@@ -91,8 +91,8 @@ class FakeSocket:
         return True
 
     def _arrive_at(self, t, data):
-        if t <= self.k.now:
-            self._arrive(data, False)
+        if t <= self.k.now and self.inflight == 0:
+            self._arrive(data, False)      # nothing queued ahead of it
         else:
             self.inflight += 1
             self.k.at(t, self._arrive, data, True)
